@@ -355,10 +355,28 @@ func runC04B(st *ev.Stats, c C04Case) string {
 				continue
 			}
 			// covered: a valid staking operation must go through (the signer has stake on vals 0 and 1 and funds)
-			valid := op.M == 0 || amt.Cmp(milli("5000000")) <= 0
 			if flag != 1 {
-				if valid && code == 0 {
-					return fail("covered-spend-refused:"+c04Methods[op.M], desc)
+				if code == 0 {
+					// refused although the grant covers it: acceptable only if the staking module itself refuses the
+					// operation for this account in this state (nothing delegated there, a redelegation still in
+					// progress, too many entries, ...), which the signer's own native message shows on a scratch context
+					var native sdk.Msg
+					vAddr, _ := sdk.ValAddressFromBech32(val)
+					vAddr2, _ := sdk.ValAddressFromBech32(val2)
+					coin := sdk.NewCoin(chain.Denom, sdk.NewIntFromBigInt(amt))
+					switch op.M {
+					case 0:
+						native = stakingtypes.NewMsgDelegate(pxSigner.Addr, vAddr, coin)
+					case 1:
+						native = stakingtypes.NewMsgUndelegate(pxSigner.Addr, vAddr, coin)
+					default:
+						native = stakingtypes.NewMsgBeginRedelegate(pxSigner.Addr, vAddr, vAddr2, coin)
+					}
+					cctx, _ := n.Ctx().CacheContext()
+					if _, err := app.MsgServiceRouter().Handler(native)(cctx, native); err == nil {
+						return fail("covered-spend-refused:"+c04Methods[op.M], desc)
+					}
+					st.Class("covered-spend-refused-by-staking-rules:" + c04Methods[op.M])
 				}
 				continue
 			}
